@@ -255,7 +255,14 @@ pub fn run_tree(tree: &[TNode], k: usize, chooser_of: impl FnOnce(Arc<Mutex<Choi
                     TNode::Feas(s) => NodeResult::Feasible(n, *s),
                     TNode::Panic => {
                         failed2.fetch_add(1, std::sync::atomic::Ordering::SeqCst);
-                        panic!("node solver fails on node {}", n)
+                        // the payload of a failing node solver is arbitrary: a short literal, a formatted text, a long text full of
+                        // multi-byte characters (no character boundary at any even byte offset, nor at multiples of 3 later on), no text
+                        match n % 4 {
+                            0 => panic!("node solver fails"),
+                            1 => panic!("node solver fails on node {}", n),
+                            2 => panic!("x{}y{}\n{}", "\u{df}".repeat(90), "\u{20ac}".repeat(120), "Zeile \u{1f600}\n".repeat(40)),
+                            _ => std::panic::panic_any(n as u32),
+                        }
                     }
                 }
             },
